@@ -1,4 +1,59 @@
 import EaselModel.Core.Proto
-/-! Line-protocol driver for the C05 model (stub: answers bad-op until the model lands). -/
-open EaselModel.Proto
-def main : IO Unit := runDriver () (fun s _ => (s, "bad-op"))
+import EaselModel.Buffer.Model
+/-! Line-protocol driver for the C05 model (esl_buffer.c).
+
+  open mode=<string|stream|pipe|file|allfile|mmap> ps=<pagesize> hex=<input bytes>
+  getline | fetchline | fetchlinestr | gettoken sep=<hex> | fetchtoken sep=<hex> | fetchtokenstr sep=<hex>
+  read k=<n> | get | set k=<nused> | getoffset | setoffset o=<n> | setanchor o=<n> | setstable o=<n> | raise o=<n>
+
+  answer: `<status> <hex bytes> n=<count> off=<offset after the op>[ z=1][ moved=1]` -/
+open EaselModel.Proto EaselModel.Buffer
+
+def stName : St → String
+  | .ok => "ok" | .eof => "eof" | .eol => "eol" | .einval => "einval"
+  | .einconceivable => "einconceivable" | .fault => "fault"
+
+def parseMode (s : String) : Option Mode :=
+  if s == "string" then some .string else if s == "stream" then some .stream
+  else if s == "pipe" then some .cmdpipe else if s == "file" then some .file
+  else if s == "allfile" then some .allfile else if s == "mmap" then some .mmap else none
+
+def parseOp (ws : List String) : Option Op :=
+  match ws.head? with
+  | some "getline" => some .getLine
+  | some "fetchline" => some .fetchLine
+  | some "fetchlinestr" => some .fetchLineStr
+  | some "gettoken" => (argHex? ws "sep").map .getToken
+  | some "fetchtoken" => (argHex? ws "sep").map .fetchToken
+  | some "fetchtokenstr" => (argHex? ws "sep").map .fetchTokenStr
+  | some "read" => (argNat? ws "k").map .read
+  | some "get" => some .get
+  | some "set" => (argNat? ws "k").map .set
+  | some "getoffset" => some .getOffset
+  | some "setoffset" => (argNat? ws "o").map .setOffset
+  | some "setanchor" => (argNat? ws "o").map .setAnchor
+  | some "setstable" => (argNat? ws "o").map .setStableAnchor
+  | some "raise" => (argNat? ws "o").map .raiseAnchor
+  | _ => none
+
+def fmt (o : Out) (s : Sess) : String :=
+  if o.st == .fault then "fault" else
+  stName o.st ++ " " ++ hexOrDash o.bytes ++ " n=" ++ toString o.n ++ " off=" ++ toString s.b.offset
+    ++ (if o.z then " z=1" else "") ++ (if s.moved then " moved=1" else "")
+
+def stepLine (st : Option Sess) (line : String) : Option Sess × String :=
+  let ws := words line
+  if ws.head? == some "open" then
+    match (arg? ws "mode").bind parseMode, argNat? ws "ps", argHex? ws "hex" with
+    | some m, some ps, some src =>
+      let s : Sess := { b := openBuf m ps src }
+      (some s, fmt { st := .ok } s)
+    | _, _, _ => (st, "bad-op")
+  else
+    match st, parseOp ws with
+    | some s, some op =>
+      let (o, s') := s.step op
+      (some s', fmt o s')
+    | _, _ => (st, "bad-op")
+
+def main : IO Unit := runDriver (none : Option Sess) stepLine
